@@ -143,7 +143,10 @@ Init == /\ pi \in 1..Len(Cases)
         /\ hookFailed = [el \in 1..Len(Cases[pi].prog) |-> FALSE]
         /\ shouldSkip = [el \in 1..Len(Cases[pi].prog) |-> FALSE]
         /\ rt = [hookN |-> 0, hookFailures |-> 0, aborted |-> FALSE, undefN |-> 0, runFeature |-> TRUE,
-                 failedCount |-> 0, rootClFailed |-> FALSE, done |-> FALSE]
+                 failedCount |-> 0, rootClFailed |-> FALSE, done |-> FALSE,
+                 unwound |-> FALSE,      \* a KeyboardInterrupt raised by a hook has unwound the call stack up to run_model
+                 stuck |-> FALSE,        \* ... from a step hook: the capture of that step was never stopped
+                 escaped |-> FALSE]      \* ... from before_all / after_all: it left run_model altogether
         /\ ctx = << [layer |-> "testrun", cls |-> <<>>] >>
         /\ cap = [buf |-> <<>>, rout |-> <<>>, rerr |-> <<>>, ulog |-> <<>>, errmarks |-> [el \in 1..Len(Cases[pi].prog) |-> [k \in 1..Len(Cases[pi].prog[el].steps) |-> <<>>]]]
         /\ evlog = <<>>
@@ -154,9 +157,13 @@ model == <<stepst, forced, hookFailed, shouldSkip>>
 
 \* ---------------------------------------------------------------- run_hook (callers check dry-run)
 Raises == rt.hookN + 1 \in {faults[1], faults[2]} \ {0}
+\* P.kbd: the faulty hook invocations raise KeyboardInterrupt (the user interrupts the run while a hook is running).
+\* run_hook catches Exception only: the interrupt travels up the call stack -- Step.run, Scenario.run and
+\* ScenarioContainer.run have no handler and no finally around their hooks -- to the handler in run_model (KbdUnwind below)
+KbdNow == Raises /\ P.kbd
 \* rt after one hook invocation; abortOnRaise for before_all/after_all
 RtHook(abortOnRaise) == [rt EXCEPT !.hookN = @ + 1,
-                                   !.hookFailures = IF Raises THEN @ + 1 ELSE @,
+                                   !.hookFailures = IF Raises /\ ~P.kbd THEN @ + 1 ELSE @,
                                    !.aborted = @ \/ (abortOnRaise /\ Raises)]
 
 RECURSIVE Rev(_)
@@ -191,13 +198,21 @@ SkipForced(el) == [x \in DOMAIN forced |-> IF ~IsUnder(x, el) THEN forced[x]
 HookCl(c) == IF P.hookcl THEN [c EXCEPT ![Len(c)].cls = Append(@, [id |-> 500 + rt.hookN + 1, raises |-> FALSE])] ELSE c
 
 \* ======================================================================= run_model
+\* events recorded while the capture of an interrupted step is still installed see the capture streams
+Adj(e) == IF rt.stuck THEN [e EXCEPT !.out_real = ~cfg.cap_out, !.err_real = ~cfg.cap_err] ELSE e
+AdjAll(q) == [k \in DOMAIN q |-> Adj(q[k])]
 BeforeAll ==
    /\ Top.fn = "run_model" /\ Top.pc = "before_all"
    /\ IF cfg.dry THEN /\ rt' = [rt EXCEPT !.runFeature = ~rt.aborted] /\ U(<<evlog, ctx>>)
+                      /\ stack' = SetTop([Top EXCEPT !.pc = "loop", !.i = 1])
+      ELSE IF KbdNow THEN      \* no handler around before_all: the interrupt leaves run_model, nothing else happens
+           /\ rt' = [rt EXCEPT !.hookN = @ + 1, !.done = TRUE, !.escaped = TRUE]
+           /\ evlog' = Append(evlog, HookEv("before_all", 0, "", TRUE, 0, FALSE))
+           /\ stack' = SetTop([Top EXCEPT !.pc = "finished"]) /\ U(ctx)
       ELSE /\ rt' = [RtHook(TRUE) EXCEPT !.runFeature = ~(rt.aborted \/ Raises)]
            /\ evlog' = Append(evlog, HookEv("before_all", 0, "", Raises, 0, FALSE))
            /\ ctx' = HookCl(ctx)
-   /\ stack' = SetTop([Top EXCEPT !.pc = "loop", !.i = 1])
+           /\ stack' = SetTop([Top EXCEPT !.pc = "loop", !.i = 1])
    /\ U(<<inputs, ret, model, cap>>)
 
 FeatureLoop ==
@@ -208,7 +223,7 @@ FeatureLoop ==
          /\ evlog' = Append(evlog, FmtEv("uri", 0, 0, "", FALSE))
          /\ stack' = PushOn(SetTop([Top EXCEPT !.pc = "feature_ret"]), Frame("container", Features[Top.i]))
       ELSE
-         /\ evlog' = Append(evlog, RepEv("feature", Features[Top.i], StatusOf(Features[Top.i])))
+         /\ evlog' = Append(evlog, Adj(RepEv("feature", Features[Top.i], StatusOf(Features[Top.i]))))
          /\ stack' = SetTop([Top EXCEPT !.i = Top.i + 1])
    /\ U(<<inputs, ret, model, rt, ctx, cap>>)
 
@@ -220,14 +235,19 @@ FeatureRet ==
    /\ stack' = SetTop([Top EXCEPT !.pc = "loop", !.i = Top.i + 1])
    /\ U(<<inputs, ret, model, ctx, cap>>)
 
-AfterAll ==     \* after_all hook, root _do_cleanups (no pop), close, end
+AfterAll ==     \* after_all hook, _do_cleanups of the CURRENT context layer (no pop), close, end
+   \* (the current layer is the test-run layer -- unless an interrupt unwound the run and left the layers of the
+   \*  interrupted feature / rule / scenario open: then only the innermost of THEM is cleaned up)
    /\ Top.fn = "run_model" /\ Top.pc = "after_all"
-   /\ LET cls == IF cfg.dry THEN ctx[1].cls ELSE HookCl(ctx)[1].cls      \* (a cleanup registered by after_all itself still runs)
-          tailEv == ClEvents(cls) \o <<FmtEv("close", 0, 0, "", FALSE), RepEv("end", 0, "")>> IN
+   /\ LET cls == IF cfg.dry THEN CtxTop.cls ELSE HookCl(ctx)[Len(ctx)].cls      \* (a cleanup registered by after_all itself still runs)
+          tailEv == AdjAll(ClEvents(cls) \o <<FmtEv("close", 0, 0, "", FALSE), RepEv("end", 0, "")>>) IN
       IF cfg.dry THEN /\ rt' = [rt EXCEPT !.rootClFailed = AnyRaises(cls), !.done = TRUE]
                       /\ evlog' = evlog \o tailEv
+      ELSE IF KbdNow THEN      \* the interrupt leaves run_model: no cleanups, no close, no end
+           /\ rt' = [rt EXCEPT !.hookN = @ + 1, !.done = TRUE, !.escaped = TRUE]
+           /\ evlog' = Append(evlog, Adj(HookEv("after_all", 0, "", TRUE, 0, FALSE)))
       ELSE /\ rt' = [RtHook(TRUE) EXCEPT !.rootClFailed = AnyRaises(cls), !.done = TRUE]
-           /\ evlog' = Append(evlog, HookEv("after_all", 0, "", Raises, 0, FALSE)) \o tailEv
+           /\ evlog' = Append(evlog, Adj(HookEv("after_all", 0, "", Raises, 0, FALSE))) \o tailEv
    /\ stack' = SetTop([Top EXCEPT !.pc = "finished"])
    /\ U(<<inputs, ret, model, ctx, cap>>)
 
@@ -580,12 +600,21 @@ StNFind ==      \* find_match of the sub-step
            /\ stack' = SetTop([Top EXCEPT !.pc = "ahook"])
       ELSE /\ stack' = SetTop([Top EXCEPT !.pc = "nbhook"]) /\ U(<<rt, stepst>>)
    /\ U(<<inputs, ret, forced, hookFailed, shouldSkip, ctx, cap, evlog>>)
+\* an interrupt raised by a hook of the sub-step leaves the sub-step and execute_steps() and arrives in the calling step's
+\* body: that step is an error, the run is aborted (like the outcome kbd), its own after_step hook still runs
+KbdInNested(name) ==
+   /\ rt' = [rt EXCEPT !.hookN = @ + 1, !.aborted = TRUE]
+   /\ evlog' = Append(evlog, HookEv(name, Top.el, "", TRUE, 0, TRUE))
+   /\ stepst' = [stepst EXCEPT ![Top.el][Top.i] = "error"]
+   /\ stack' = SetTop([Top EXCEPT !.pc = "ahook", !.sr = FALSE])
+   /\ U(<<inputs, ret, forced, hookFailed, shouldSkip, ctx, cap>>)
 StNBefore ==    \* before_step hook of the sub-step (hook events of sub-steps carry position 0)
    /\ Top.fn = "step" /\ Top.pc = "nbhook"
-   /\ rt' = RtHook(FALSE)
-   /\ evlog' = Append(evlog, HookEv("before_step", Top.el, "", Raises, 0, TRUE))
-   /\ stack' = SetTop([Top EXCEPT !.sr = Raises, !.pc = IF Raises THEN "nahook" ELSE "nbody"])     \* sr: sub-step hook failed
-   /\ U(<<inputs, ret, model, ctx, cap>>)
+   /\ IF KbdNow THEN KbdInNested("before_step") ELSE
+      /\ rt' = RtHook(FALSE)
+      /\ evlog' = Append(evlog, HookEv("before_step", Top.el, "", Raises, 0, TRUE))
+      /\ stack' = SetTop([Top EXCEPT !.sr = Raises, !.pc = IF Raises THEN "nahook" ELSE "nbody"])     \* sr: sub-step hook failed
+      /\ U(<<inputs, ret, model, ctx, cap>>)
 StNBody ==
    /\ Top.fn = "step" /\ Top.pc = "nbody"
    /\ evlog' = Append(evlog, SubEv(Top.el, Top.i, SubOutcome(NOutcome)))
@@ -594,7 +623,8 @@ StNBody ==
    /\ U(<<inputs, ret, model, rt, ctx>>)
 StNAfter ==     \* after_step hook of the sub-step; then the calling step goes on, or execute_steps raises AssertionError
    /\ Top.fn = "step" /\ Top.pc = "nahook"
-   /\ LET el == Top.el  k == Top.i  x == SubOutcome(NOutcome)
+   /\ IF KbdNow THEN KbdInNested("after_step") ELSE
+      LET el == Top.el  k == Top.i  x == SubOutcome(NOutcome)
           subFailed == Top.sr \/ Raises \/ x \in {"fail", "error"} \/ (x = "pending" /\ ~Wip(el)) IN
       /\ rt' = RtHook(FALSE)
       /\ evlog' = Append(evlog, HookEv("after_step", el, "", Raises, 0, TRUE)) \o (IF subFailed THEN <<>> ELSE <<AfterNestedEv(el, k)>>)
@@ -620,7 +650,50 @@ StResult ==     \* error_message with the captured report; formatter.result
       /\ ret' = ~HasFailed(st1) /\ stack' = Pop
    /\ U(<<inputs, model, rt, ctx>>)
 
-Next == \/ BeforeAll \/ FeatureLoop \/ FeatureRet \/ AfterAll
+\* ======================================================================= KeyboardInterrupt raised by a hook
+\* the hook invocation the top frame is about to make (k = "" when it is not at a hook)
+NoHook == [name |-> "", el |-> 0, tag |-> "", pos |-> 0, instep |-> FALSE]
+HookAt(f) ==
+   LET el == f.el
+       tagsLeft == f.i <= Len(prog[el].tags)
+       cname(b) == IF KindName(el) = "feature" THEN b \o "_feature" ELSE b \o "_rule" IN
+   CASE f.fn = "container" /\ f.pc = "btag" /\ tagsLeft -> [NoHook EXCEPT !.name = "before_tag", !.el = el, !.tag = prog[el].tags[f.i]]
+     [] f.fn = "container" /\ f.pc = "bhook" -> [NoHook EXCEPT !.name = cname("before"), !.el = el]
+     [] f.fn = "container" /\ f.pc = "ahook" -> [NoHook EXCEPT !.name = cname("after"), !.el = el]
+     [] f.fn = "container" /\ f.pc = "atag" /\ tagsLeft -> [NoHook EXCEPT !.name = "after_tag", !.el = el, !.tag = prog[el].tags[f.i]]
+     [] f.fn = "scenario" /\ f.pc = "btag" /\ tagsLeft -> [NoHook EXCEPT !.name = "before_tag", !.el = el, !.tag = prog[el].tags[f.i]]
+     [] f.fn = "scenario" /\ f.pc = "bhook" -> [NoHook EXCEPT !.name = "before_scenario", !.el = el]
+     [] f.fn = "scenario" /\ f.pc = "ahook" -> [NoHook EXCEPT !.name = "after_scenario", !.el = el]
+     [] f.fn = "scenario" /\ f.pc = "atag" /\ tagsLeft -> [NoHook EXCEPT !.name = "after_tag", !.el = el, !.tag = prog[el].tags[f.i]]
+     [] f.fn = "step" /\ f.pc = "bhook"  -> [NoHook EXCEPT !.name = "before_step", !.el = el, !.pos = f.i, !.instep = TRUE]
+     \* (the hooks of a nested sub-step run inside the calling step's body: an interrupt there is caught by the calling
+     \*  step's own `except KeyboardInterrupt`, see StNBefore / StNAfter)
+     [] f.fn = "step" /\ f.pc = "ahook"  -> [NoHook EXCEPT !.name = "after_step", !.el = el, !.pos = f.i, !.instep = TRUE]
+     [] OTHER -> NoHook
+AtKbdHook == Len(stack) > 1 /\ KbdNow /\ HookAt(Top).name # ""
+\* run_model: `except KeyboardInterrupt: self.abort(..); failed_count += 1; run_feature = False`, then the reporters get the
+\* feature.  Everything between the hook and run_model is abandoned as it is: no after hooks, no formatter call-outs, the
+\* context layers of the open feature / rule / scenario stay on the context stack (their cleanups do not run), and from a
+\* step hook the capture of that step stays installed (rt.stuck).  The hook is not counted as a hook failure, no element
+\* is marked: the run fails because it is aborted
+KbdUnwind ==
+   /\ AtKbdHook
+   /\ LET h == HookAt(Top)
+          base == stack[1]
+          fe == Features[base.i]
+          stuckNow == rt.stuck \/ Top.fn = "step"
+          rep == RepEv("feature", fe, StatusOf(fe)) IN
+      /\ rt' = [rt EXCEPT !.hookN = @ + 1, !.aborted = TRUE, !.failedCount = @ + 1, !.runFeature = FALSE,
+                          !.unwound = TRUE, !.stuck = stuckNow]
+      /\ evlog' = evlog \o <<Adj(HookEv(h.name, h.el, h.tag, TRUE, h.pos, h.instep)),
+                              IF stuckNow THEN [rep EXCEPT !.out_real = ~cfg.cap_out, !.err_real = ~cfg.cap_err] ELSE rep>>
+      /\ stack' = << [base EXCEPT !.pc = "loop", !.i = base.i + 1] >>
+      \* (a hook that registers a cleanup of its own has done so before the interrupt hits it)
+      /\ ctx' = IF h.name \in {"before_feature", "before_rule", "before_scenario", "after_scenario"} THEN HookCl(ctx) ELSE ctx
+   /\ U(<<inputs, ret, model, cap>>)
+
+Next == IF AtKbdHook THEN KbdUnwind ELSE
+        \/ BeforeAll \/ FeatureLoop \/ FeatureRet \/ AfterAll
         \/ CEnter \/ CBeforeTag \/ CBeforeHook \/ CAnnounce \/ CItems \/ CItemRet \/ CFinish \/ CAfterHook \/ CAfterTag \/ CPop
         \/ OEnter \/ ORows \/ ORowRet
         \/ SEnter \/ SBeforeTag \/ SBeforeHook \/ SAnnounce \/ SSteps \/ SStepRet \/ SFinish \/ SAfterHook \/ SAfterTag \/ SPop
@@ -631,6 +704,6 @@ Spec == Init /\ [][Next]_vars
 \* the context stack mirrors the open feature/rule/scenario frames; capture buffer only grows inside a scenario
 CtxMirrorsStack ==
    LET open == SelectSeq(stack, LAMBDA f : f.fn \in {"container", "scenario"} /\ f.pc # "enter") IN
-   Len(ctx) = 1 + Len(open)
-DoneMeansUnwound == rt.done => Len(stack) = 1 /\ Len(ctx) = 1
+   rt.unwound \/ Len(ctx) = 1 + Len(open)
+DoneMeansUnwound == rt.done => Len(stack) = 1 /\ (rt.unwound \/ Len(ctx) = 1)
 =============================================================================
